@@ -247,6 +247,8 @@ def gen_rust_consts(vals):
              clist("(%s, %s, %s)" % (cstr(a), cstr(b), clist(cN(ord(o)) for o in ops)) for a, b, ops in vals["PARSE_LEVELS"]))
     L.append("Definition CALC_OPERANDS : list (str * list str * list str) := %s." %
              clist("(%s, %s, %s)" % (cstr(f), clist(cstr(x) for x in ks), clist(cstr(x) for x in os_)) for f, ks, os_ in vals["CALC_OPERANDS"]))
+    L.append("(* keys that occur twice in one object of config.json (must be none) *)")
+    L.append("Definition CONFIG_DUPLICATE_KEYS : list str := %s." % clist(cstr(x) for x in DUPLICATE_KEYS))
     L.append("Definition MAP_PARSERS : list (str * list str) := %s." %
              clist("(%s, %s)" % (cstr(f), clist(cstr(x) for x in xs)) for f, xs in vals["MAP_PARSERS"]))
     return "\n".join(L) + "\n"
@@ -262,7 +264,21 @@ def load_config():
     text = open(path, encoding="utf-8").read()
     # keep number literals as written (exact decimals)
     data = json.loads(text, parse_float=RawNum, parse_int=lambda x: int(x))
+    # an object with the same key twice is not a well-defined table (serde_json keeps the last value silently)
+    dups = []
+    def hook(pairs):
+        seen = set()
+        for k, _ in pairs:
+            if k in seen and k not in dups:
+                dups.append(k)
+            seen.add(k)
+        return dict(pairs)
+    json.loads(text, object_pairs_hook=hook)
+    DUPLICATE_KEYS[:] = dups
     return data
+
+
+DUPLICATE_KEYS = []
 
 
 DURKIND = {"Second": "DSecond", "Minute": "DMinute", "Hour": "DHour", "Day": "DDay", "Week": "DWeek",
